@@ -679,3 +679,103 @@ func rackScript(a, b []int, lo int) int {
 	}
 	return acc
 }
+
+// ---- copy-only float64, flat structs stored twice, switch on a tag, append(x, s...), a lent result (weighted graphs) ----
+
+type link struct {
+	a, b int
+	w    float64
+}
+
+// far: `switch` with a tag and non-constant case expressions (evaluated in order, lazily)
+func (l link) far(v int) int {
+	switch v {
+	case l.a:
+		return l.b
+	case l.b:
+		return l.a
+	default:
+		return -1
+	}
+}
+
+func (l link) load() float64 { return l.w }
+
+type mesh struct {
+	n, m int
+	adj  [][]link
+}
+
+func newMesh(n int, ls ...link) *mesh {
+	adj := make([][]link, n)
+	for i := range adj {
+		adj[i] = make([]link, 0)
+	}
+	g := &mesh{n: n, m: 0, adj: adj}
+	for _, l := range ls {
+		g.add(l)
+	}
+	return g
+}
+
+func (g *mesh) ok(v int) bool { return v >= 0 && v < g.n }
+
+// add stores the flat struct l twice: two copies, nothing shared
+func (g *mesh) add(l link) {
+	v := l.a
+	w := l.far(v)
+	if g.ok(v) && g.ok(w) {
+		g.m++
+		g.adj[v] = append(g.adj[v], l)
+		g.adj[w] = append(g.adj[w], l)
+	}
+}
+
+// at returns the graph's own list: a lent result (no translated function calls it)
+func (g *mesh) at(v int) []link {
+	if !g.ok(v) {
+		return nil
+	}
+	return g.adj[v]
+}
+
+// all: out = append(out, ls...) of flat elements; flipped copies with the float moved through a literal
+func (g *mesh) all(flip bool) []link {
+	out := make([]link, 0)
+	for _, ls := range g.adj {
+		if flip {
+			for _, l := range ls {
+				out = append(out, link{l.b, l.a, l.load()})
+			}
+		} else {
+			out = append(out, ls...)
+		}
+	}
+	return out
+}
+
+// meshScript: links (ps[2i], ps[2i+1]) with weights ws[i mod len(ws)] copied out of a []float64
+func meshScript(n int, ps []int, ws []float64, flip bool) (int, []link) {
+	g := newMesh(n, link{0, 0, ws[0]})
+	for i := 0; i+1 < len(ps); i += 2 {
+		g.add(link{a: ps[i], b: ps[i+1], w: ws[(i/2)%len(ws)]})
+	}
+	return g.m, g.all(flip)
+}
+
+// pick: the case expressions are evaluated only until one is equal to the tag — xs[i] can panic, or never be reached
+func pick(xs []int, i, v int) int {
+	r := 0
+	switch v + 0 {
+	case xs[0]:
+		r = 10
+	case xs[i]:
+		r = 20
+	case 7:
+		r = 30
+		if i > 2 {
+			r = 31
+		}
+	}
+	return r + 1
+}
